@@ -115,8 +115,10 @@ class Unit:
     def __init__(self, id, fn, pre=None, post=None, replace=(), cfg='abacus', backends=('sat',), timeout=120,
                  tier='quick', cxx=None, note='', split=False, loop_contracts=None, ghost=None, extra_flags=(),
                  lemma=False, requires_extra=(), ensures_extra=(), no_canary=False, ub_only=False, unwind=None,
-                 object_bits=None, defines=(), link_src=False, expect_props=(), engine='bv', prelude='', replace_raw=(), needs=(), bounded=None, native_post=None):
+                 object_bits=None, defines=(), link_src=False, expect_props=(), engine='bv', prelude='', replace_raw=(), needs=(), bounded=None, native_post=None, assigns_extra=(), cut_check=None):
         self.engine = engine
+        self.assigns_extra = list(assigns_extra)
+        self.cut_check = cut_check
         self.native_post = native_post
         self.bounded = bounded
         self.needs = list(needs)
@@ -260,6 +262,16 @@ def emit_unit(unit, outdir):
         if f['name'] in ('operator<<', 'operator>>') and len(f['params']) == 2 and f['params'][1][1].base == 'int':
             req_extra.append('%s <= 63' % f['params'][1][0])
     ex.contracts[cn] = contract_text(f, unit.pre, unit.post, unit.lemma, req_extra, [subst(x) for x in unit.ensures_extra])
+    if unit.assigns_extra:
+        ex.contracts[cn] = ex.contracts[cn].replace('__CPROVER_assigns()', '__CPROVER_assigns(%s)' % ', '.join(unit.assigns_extra))
+    if unit.cut_check:
+        # (function, if ordinal, names that must NOT be referenced after that statement)
+        cfn, iford, forbidden = unit.cut_check
+        ex.require_mangled(cfn)
+        after = ex.names_referenced_after_if(X.cname_of(cfn), iford)
+        bad = sorted(set(forbidden) & after)
+        if bad:
+            raise Undecided('%s: the code after the cut point still reads %s; the factorisation argument does not apply' % (unit.id, bad))
     prelude = PRELUDE + unit.prelude + '\n'
     uf_abstracted = []
     for (g, gpre, gpost) in unit.replace:
